@@ -480,6 +480,10 @@ def main(chk):
         if key in chk.viol:
             chk.viol[key]['count'] = c['n']
             chk.nviol += c['n'] - 1
+        else:
+            ki = chk._match_known(key)
+            if ki is not None:
+                chk.known_hit[ki] += c['n'] - 1     # a known class covers the recorded number of inputs, see runner.finish
     nio = io_faults(chk) if chk.want('io') else 0
     nio += multi_inputs(chk) if chk.want('multi') else 0
     sample_mut = next(iter(mutants(files[0][0], files[0][1], True, True)))
